@@ -28,6 +28,7 @@ CONSTANTS
   DTs = {""}
   EXs = {FALSE, TRUE}
 INVARIANT NoCrash
+INVARIANT PreparedCleared
 INVARIANT RejectsOnlyIllFormed
 INVARIANT RoundTrip
 INVARIANT DocBoundaries
